@@ -36,32 +36,42 @@ Definition opt_eqb (a : option N) (b : N) : bool :=
 
 (* WF of one API call in the current state.  Each conjunct is what the proof needs; the call site
    in /repo/src/pkgcore/resolver/plan.py that guarantees it is named (see notes/C17.md):
-   add      the package is not in the plan yet (insert_choice adds a choice point's current_pkg once;
-            _ensure_livefs_is_loaded only when match_atom found nothing) and was not replaced away
-            (livefs_dbs filters vdb_filter, plan.py:336); a forced add never doubles a (key,slot)
-   remove   targets a slotted package under the choice point it is bound to
-   replace  never forced (plan.py:897), the new package is new and hit by no limiter (the add_op
-            just before returned no restriction, plan.py:882), a bound package occupies the slot,
-            and that package is not hit by a blocker of its own choice point
+   Bindings (pkg_choices) and exclusions (vdb_filter) are keyed by the package's VALUE (peq: cpv),
+   slot occupancy by object identity.
+   add      no equal package is bound (insert_choice adds a choice point's current_pkg once;
+            _ensure_livefs_is_loaded only when match_atom found nothing), the object is not slotted,
+            no equal package was replaced away (livefs_dbs filters vdb_filter, plan.py:336); a
+            forced add never doubles a (key,slot)
+   remove   targets a slotted package under the choice point it is bound to, not in vdb_filter
+   replace  never forced (plan.py:897), the new object is not slotted and hit by no limiter (the
+            add_op just before returned no restriction, plan.py:882), a bound package occupies the
+            slot and is not in vdb_filter (it came from livefs_dbs), the new package is unbound or
+            EQUAL to the one it replaces (same cpv from the vdb and from a repo), and the old
+            package is not hit by a blocker of its own choice point
    blocker  is filed under its own key (plan.py:946 passes key=x.key) *)
 Definition wf_api_b (s : state) (a : api) : bool :=
   match a with
   | AAdd c p f =>
-      negb (bound p s) && negb (memN p (slots s)) && negb (memN p (vf s))
+      negb (bound (peq E p) s) && negb (memN p (slots s)) && negb (memN (peq E p) (vf s))
       && (negb f || is_nil (slot_conflicts E p s))
   | AHardref _ => true
   | ABackref _ _ => true
-  | ARemove c p => memN p (slots s) && opt_eqb (lookup p (pc s)) c
+  | ARemove c p =>
+      memN p (slots s) && opt_eqb (lookup (peq E p) (pc s)) c && negb (memN (peq E p) (vf s))
   | AReplace c p f =>
-      negb f && negb (bound p s) && negb (memN p (slots s)) && negb (memN p (vf s))
+      negb f && negb (memN p (slots s)) && negb (memN (peq E p) (vf s))
       && is_nil (check_limiters E p s)
       && match get_conflicting_slot E p s with
          | None => false
          | Some old =>
-             match lookup old (pc s) with
-             | None => false
-             | Some oc => forallb (fun bk => negb (bmatch E (fst bk) old)) (rb_of oc s)
-             end
+             (* the new package is unbound, or it is equal to the package it replaces
+                (re-merge of the installed version: same cpv from the vdb and from a repo) *)
+             (negb (bound (peq E p) s) || N.eqb (peq E p) (peq E old))
+             && negb (memN (peq E old) (vf s))
+             && match lookup (peq E old) (pc s) with
+                | None => false
+                | Some oc => forallb (fun bk => negb (bmatch E (fst bk) old)) (rb_of oc s)
+                end
          end
   | ABlock c b k => N.eqb k (bkey E b)
   | ADecref c b k => N.eqb k (bkey E b) && existsb (trip_eqb (c, (b, k))) (rb s)
